@@ -4,36 +4,45 @@
 //! /verif/lean/YashModel/Fork/Main.lean):
 //!
 //! ```text
-//! [F:1;] P:<op>; …; K:<kind>[; K:<kind>]; C:<op>; …; [W:<op>; …]
+//! [F:1;] [T:1;] [I:1;] [G:<SIG>;] [Q:1;] P:<op>; …; K:<kind>[; K:<kind>[; K:<kind>]]; [M:<op>; …] [N:<op>; …] C:<op>; …; [W:<op>; …]
 //! ```
 //!
-//! * `P:` ops run in the parent before the subshell, `C:` ops inside the (innermost) subshell,
-//!   `W:` ops in the parent between `&` and `wait` (only when the outermost kind is `async`).
-//! * `K:` = `paren | subst | pipeF | pipeM | pipeL | async`, one (depth 1) or two (depth 2, outer first).
+//! * `P:` ops run in the parent before the subshell, `C:` ops inside the innermost subshell, `M:` / `N:` ops in
+//!   the level-1 / level-2 subshell before it starts the next one, `W:` ops in the parent between `&` and
+//!   `wait` (only when the outermost kind is `async`).
+//! * `K:` = `paren | subst | pipeF | pipeM | pipeL | async`, one to three (nesting depth 1-3, outer first).
 //! * `F:1` renders the whole program inside a function body (same prediction, other context stack).
+//! * `T:1` `/dev/tty` exists (job control then opens it and calls `tcsetpgrp`); `I:1` the internal dispositions
+//!   of an interactive job-control shell are installed before the script; `G:SIG` the shell inherits SIG
+//!   ignored; `Q:1` snapshot `B0` omits the `trap` listing (the trap set keeps its vacant entries).
 //! * ops: `set N V`, `unset N`, `export N V`, `readonly N V`, `fn F B`, `unfn F`, `alias A V`,
 //!   `unalias A`, `opt+ O`, `opt- O`, `shift`, `args X…`, `cd D`, `umask M`, `trap S d|i|cN`,
-//!   `fdw N F`, `fdr N`, `fdd N M`, `fdc N`, `local N V`, `raise S`.
+//!   `fdw N F`, `fdr N`, `fdd N M`, `fdc N`, `local N V`, `raise S`, `bg` (a background job that never
+//!   finishes), `exit N` (innermost subshell only).
 //!
 //! `O` ranges over every option the `set` built-in can toggle except `exec` (17 options, `monitor`, `errexit`,
 //! `allexport`, `portable` … included; rendered in the POSIX spelling, e.g. `set +o noglob`). With `monitor` on
 //! the outermost subshell is job-controlled, with `errexit` a failing command ends the shell, with `allexport`
 //! assignments export — the Lean model follows all three.
 //!
-//! The script takes a full snapshot of the shell state with real built-ins (`typeset -p`,
-//! `typeset -fp`, `alias`, `set +o`, `umask`, `trap`, `probe "$@"`) plus `sysprobe` (cwd, umask, fd
-//! table and signal dispositions of the *current virtual process*): `B` in the parent before the
-//! subshell, `C` in the child right after entry, `D` at the end of the child, `A` in the parent after.
+//! The script takes a full snapshot of the shell state with real built-ins (`typeset -gp`, `typeset -fp`,
+//! `alias`, `set +o`, `umask`, `trap`, `probe "$@"`, `jobs -l`, `"${!-}"`) plus `sysprobe` (cwd, umask, fd table
+//! and signal dispositions of the *current virtual process*) at EVERY level: `B<j>` in the shell of level j
+//! (0 = the parent) before it starts the next subshell, `A<j>` after it, `C<j+1>` in the started subshell right
+//! after entry, `D<d>` at the end of the innermost one.
 //! Observation = these snapshots (tracked names, canonical, sorted) in output order together with the
-//! events (`T<n>` = trap command ran, `L` = function-local value, `st` = `$?`), then the state of the
-//! parent process read from the virtual system after the run, then whether the *untracked* remainder
-//! of every snapshot equals that of `B`.
+//! events (`T<n>` = trap command ran, `L` = function-local value, `st`/`sub` = `$?`), then the state of the
+//! parent process read from the virtual system after the run, the exit status of the shell, then whether the
+//! *untracked* remainder of every snapshot equals that of `B0`.
 //!
-//! Oracle (independent of the Lean model): `A == B` on the complete snapshot text (when `W:` ops exist,
-//! `A` must equal the `A` of a control run whose child body is empty); `C == B` except for the
-//! documented differences (traps with command actions reset, `INT`/`QUIT` ignored and stdin = /dev/null
-//! in an asynchronous list, pipe ends of pipelines / command substitutions); no trap command set by
-//! the parent runs in the child; the parent process state after the run equals `A`.
+//! Oracle (independent of the Lean model), level by level: `A<j> == B<j>` on the complete snapshot text and the
+//! same job numbers (level 0 with `W:` ops: `A0` equals the `A0` of a control run whose child body is empty);
+//! `C<j+1> == B<j>` — `$!` and the listed jobs included — except for the documented differences (command
+//! traps and internal dispositions reset, ignored stays ignored, `INT`/`QUIT` ignored and stdin = /dev/null in
+//! a non-job-controlled asynchronous list, stop signals kept ignored in a non-job-controlled subshell of a
+//! job-control shell, pipe ends of pipelines / command substitutions); no trap command set by the parent runs
+//! in a subshell; the parent process state after the run equals `A0`. A missing snapshot is accepted only when
+//! `errexit` can have ended that shell.
 
 use std::cell::RefCell;
 use std::collections::BTreeMap;
@@ -44,7 +53,7 @@ use yash_env::semantics::{ExitStatus, Field};
 use yash_env::signal::Number;
 use yash_env::system::concurrency::WriteAll as _;
 use yash_env::system::r#virtual::{
-    FileBody, Inode, SIGINT, SIGQUIT, SIGTERM, SIGURG, SIGUSR1, SystemState,
+    FileBody, Inode, SIGINT, SIGQUIT, SIGTERM, SIGTSTP, SIGTTIN, SIGTTOU, SIGURG, SIGUSR1, SystemState,
 };
 use yash_env::system::{Disposition, FdFlag, GetPid as _, Mode, SendSignal as _, Umask as _};
 use yverif::proto::{Opts, dec_bytes, emit, enc_str, guarded, quiet_panics};
@@ -82,14 +91,20 @@ fn opt_command(o: &str, on: bool) -> String {
 }
 const DIRS: [&str; 3] = ["/d1", "/d2", "/d1/s"];
 const MASKS: [&str; 3] = ["022", "027", "077"];
-const SIGS: [(&str, Option<Number>); 6] = [
+/// conditions whose trap / disposition the snapshots show (sorted by name)
+const SIGS: [(&str, Option<Number>); 9] = [
     ("EXIT", None),
     ("INT", Some(SIGINT)),
     ("QUIT", Some(SIGQUIT)),
     ("TERM", Some(SIGTERM)),
+    ("TSTP", Some(SIGTSTP)),
+    ("TTIN", Some(SIGTTIN)),
+    ("TTOU", Some(SIGTTOU)),
     ("URG", Some(SIGURG)),
     ("USR1", Some(SIGUSR1)),
 ];
+/// conditions the `trap` / `raise` ops range over (TSTP is only watched: raising it would stop the process)
+const OP_SIGS: [&str; 6] = ["EXIT", "INT", "QUIT", "TERM", "URG", "USR1"];
 const FILES: [&str; 2] = ["f1", "f2"];
 const FDS: [&str; 3] = ["3", "4", "5"];
 const KINDS: [&str; 6] = ["paren", "subst", "pipeF", "pipeM", "pipeL", "async"];
@@ -110,10 +125,26 @@ fn sig_number(name: &str) -> Option<Number> {
 #[derive(Clone, Debug, Default)]
 struct Case {
     in_fn: bool,
+    /// `T:1` a controlling terminal exists
+    tty: bool,
+    /// `I:1` the internal dispositions of an interactive job-control shell are installed
+    internal: bool,
+    /// `G:SIG` a signal inherited as ignored
+    ignored: Option<String>,
+    /// `Q:1` snapshot `B0` does not run `trap` (so the trap set keeps its vacant entries)
+    quiet: bool,
     pro: Vec<Vec<String>>,
     kinds: Vec<String>,
+    /// `M:` / `N:` mutators of the level-1 / level-2 subshell before it starts the next one
+    mid: [Vec<Vec<String>>; 2],
     child: Vec<Vec<String>>,
     during: Vec<Vec<String>>,
+}
+
+impl Case {
+    fn setup(&self) -> Setup {
+        Setup { tty: self.tty, internal: self.internal, ignored: self.ignored.clone() }
+    }
 }
 
 fn parse_case(text: &str) -> Option<Case> {
@@ -122,11 +153,22 @@ fn parse_case(text: &str) -> Option<Case> {
         let (tag, rest) = item.split_once(':')?;
         let toks: Vec<String> = rest.split_whitespace().map(|s| s.to_string()).collect();
         match tag {
-            "F" => {
+            "F" | "T" | "I" | "Q" => {
                 if toks != ["1"] {
                     return None;
                 }
-                c.in_fn = true
+                match tag {
+                    "F" => c.in_fn = true,
+                    "T" => c.tty = true,
+                    "I" => c.internal = true,
+                    _ => c.quiet = true,
+                }
+            }
+            "G" => {
+                if toks.len() != 1 || !OP_SIGS.contains(&toks[0].as_str()) || toks[0] == "EXIT" {
+                    return None;
+                }
+                c.ignored = Some(toks[0].clone())
             }
             "K" => {
                 if toks.len() != 1 || !is_in(&toks[0], &KINDS) {
@@ -134,27 +176,31 @@ fn parse_case(text: &str) -> Option<Case> {
                 }
                 c.kinds.push(toks[0].clone())
             }
-            "P" | "C" | "W" => {
+            "P" | "C" | "W" | "M" | "N" => {
                 render_op(&toks)?;
+                // `bg` is not for W: it would change `$!`, which the parent is about to `wait` for
+                let noisy = toks[0] == "raise" || toks[0] == "local" || (tag == "W" && toks[0] == "bg");
+                let exits = toks[0] == "exit";
                 match tag {
-                    "P" => c.pro.push(toks),
+                    "P" if !exits => c.pro.push(toks),
                     "C" => c.child.push(toks),
-                    _ => {
-                        // W ops are silent mutators of the parent
-                        if toks[0] == "raise" || toks[0] == "local" {
-                            return None;
-                        }
-                        c.during.push(toks)
-                    }
+                    // W ops are silent mutators of the parent; M/N ops silent mutators of a middle level
+                    "W" if !noisy && !exits => c.during.push(toks),
+                    "M" if !noisy && !exits => c.mid[0].push(toks),
+                    "N" if !noisy && !exits => c.mid[1].push(toks),
+                    _ => return None,
                 }
             }
             _ => return None,
         }
     }
-    if c.kinds.is_empty() || c.kinds.len() > 2 {
+    if c.kinds.is_empty() || c.kinds.len() > 3 {
         return None;
     }
     if !c.during.is_empty() && c.kinds[0] != "async" {
+        return None;
+    }
+    if (!c.mid[0].is_empty() && c.kinds.len() < 2) || (!c.mid[1].is_empty() && c.kinds.len() < 3) {
         return None;
     }
     Some(c)
@@ -188,7 +234,7 @@ fn render_op(t: &[String]) -> Option<String> {
         }
         ("cd", 2) if is_in(a(1)?, &DIRS) => format!("cd {}", t[1]),
         ("umask", 2) if is_in(a(1)?, &MASKS) => format!("umask {}", t[1]),
-        ("trap", 3) if SIGS.iter().any(|s| s.0 == t[1]) => match a(2)? {
+        ("trap", 3) if is_in(a(1)?, &OP_SIGS) => match a(2)? {
             "d" => format!("trap - {}", t[1]),
             "i" => format!("trap '' {}", t[1]),
             c if c.len() == 2 && c.starts_with('c') && c[1..].chars().all(|x| ('1'..='6').contains(&x)) => {
@@ -205,15 +251,20 @@ fn render_op(t: &[String]) -> Option<String> {
         ("local", 3) if is_in(a(1)?, &VARS) && is_in(a(2)?, &VALS) => {
             format!("lf() {{ typeset {}={}; probe L \"${}\"; }}\nlf", t[1], t[2], t[1])
         }
-        ("raise", 2) if SIGS.iter().any(|s| s.0 == t[1] && s.1.is_some()) => format!("selfsig {}", t[1]),
+        ("raise", 2) if is_in(a(1)?, &OP_SIGS) && t[1] != "EXIT" => format!("selfsig {}", t[1]),
+        // a background job that never finishes (the FIFO is never opened for writing)
+        // (stdout is redirected so that the job does not hold the write end of a pipeline / command substitution)
+        ("bg", 1) => "{ exec >|/dev/null 3>&- 4>&- 5>&-; cat </o/fifo; } &".to_string(),
+        ("exit", 2) if is_in(a(1)?, &["0", "3", "7"]) => format!("exit {}", t[1]),
         _ => return None,
     })
 }
 
-fn snap(tag: &str) -> String {
+fn snap(tag: &str, with_trap: bool) -> String {
     format!(
-        "echo @{tag}\ntypeset -gp\necho @f\ntypeset -fp\necho @a\nalias\necho @o\nset +o\necho @u\numask\n\
-         echo @t\ntrap\necho @p\nprobe P \"$@\"\necho @s\nsysprobe\necho @."
+        "echo @S:{tag}\ntypeset -gp\necho @f\ntypeset -fp\necho @a\nalias\necho @o\nset +o\necho @u\numask\n\
+         echo @t\n{}echo @p\nprobe P \"$@\"\necho @j\njobs -l\nprobe X \"${{!-}}\"\necho @s\nsysprobe\necho @.",
+        if with_trap { "trap\n" } else { "" }
     )
 }
 
@@ -228,20 +279,31 @@ fn wrap(kind: &str, body: &str, during: &str) -> String {
     }
 }
 
+fn ops_text(v: &[Vec<String>]) -> String {
+    v.iter().map(|t| render_op(t).unwrap() + "\n").collect::<String>()
+}
+
+/// what runs inside the subshell of level `j` (1-based; the innermost level is `c.kinds.len()`)
+fn level_body(c: &Case, j: usize) -> String {
+    let depth = c.kinds.len();
+    if j == depth {
+        format!("{}\n{}{}", snap(&format!("C{j}"), true), ops_text(&c.child), snap(&format!("D{j}"), true))
+    } else {
+        format!(
+            "{}\n{}{}\n{}\nprobe ST\n{}",
+            snap(&format!("C{j}"), true),
+            ops_text(&c.mid[j - 1]),
+            snap(&format!("B{j}"), true),
+            wrap(&c.kinds[j], &level_body(c, j + 1), ""),
+            snap(&format!("A{j}"), true)
+        )
+    }
+}
+
 /// The shell source of a case. `control` = same program with an empty child body.
 fn render(c: &Case, control: bool) -> String {
-    let ops = |v: &Vec<Vec<String>>| -> String {
-        v.iter().map(|t| render_op(t).unwrap() + "\n").collect::<String>()
-    };
-    let mut body = if control {
-        ":".to_string()
-    } else {
-        format!("{}\n{}{}", snap("C"), ops(&c.child), snap("D"))
-    };
-    for (i, k) in c.kinds.iter().enumerate().rev() {
-        let during = if i == 0 { ops(&c.during) } else { String::new() };
-        body = format!("{}\nprobe ST", wrap(k, &body, &during));
-    }
+    let inner = if control { ":".to_string() } else { level_body(c, 1) };
+    let mut body = format!("{}\nprobe ST", wrap(&c.kinds[0], &inner, &ops_text(&c.during)));
     if c.in_fn && c.kinds.iter().any(|k| k == "subst") {
         // `typeset -fp` prints a command substitution verbatim: keep the body of `mainf` free of newlines
         // inside `$( )` so that the function listing stays one line per function
@@ -251,7 +313,7 @@ fn render(c: &Case, control: bool) -> String {
             .replace("(; ", "( ")
             .replace("&; ", "& ");
     }
-    let prog = format!("{}{}\n{}\n{}", ops(&c.pro), snap("B"), body, snap("A"));
+    let prog = format!("{}{}\n{}\n{}", ops_text(&c.pro), snap("B0", !c.quiet), body, snap("A0", true));
     if c.in_fn {
         format!("mainf() {{\n{prog}\n}}\nmainf \"$@\"\n")
     } else {
@@ -272,6 +334,8 @@ fn label_of(state: &SystemState, inode: &Rc<RefCell<Inode>>) -> String {
         ("/dev/stdout", "out"),
         ("/dev/stderr", "err"),
         ("/dev/null", "null"),
+        ("/dev/tty", "tty"),
+        ("/o/fifo", "fifo"),
         ("/o/f1", "f1"),
         ("/o/f2", "f2"),
         ("/o/in", "oin"),
@@ -386,6 +450,11 @@ struct Snap {
     sys_umask: String,
     fds: BTreeMap<u32, String>,
     disp: BTreeMap<String, String>,
+    /// numbers of the jobs `jobs -l` lists, and which of them `$!` designates (`j<n>`, `-` unset, `?` none)
+    jobs: String,
+    last: String,
+    /// `tracked` without the job bookkeeping (the property excludes `$!` and the job table from "unchanged")
+    tracked_nojobs: String,
 }
 
 #[derive(Clone, Debug)]
@@ -567,8 +636,39 @@ fn finish_snap(tag: &str, secs: &BTreeMap<String, Vec<String>>) -> Snap {
             }
         }
     }
+    // jobs: `[n] + <pid> <State> <command>` lines, then the probe line `<st>:58,<hex of $!>`
+    let mut nums = vec![];
+    let mut pids: Vec<(String, String)> = vec![];
+    let mut last_pid: Option<String> = None;
+    for l in sec("j") {
+        if let Some(r) = l.strip_prefix('[') {
+            if let Some((n, tail)) = r.split_once(']') {
+                let words: Vec<&str> = tail.split_whitespace().collect();
+                let pid = words.iter().find(|w| w.chars().all(|c| c.is_ascii_digit())).copied().unwrap_or("?");
+                let state = words.iter().find(|w| w.chars().next().is_some_and(|c| c.is_ascii_uppercase())).copied().unwrap_or("?");
+                nums.push(if state == "Running" { n.to_string() } else { format!("{n}:{state}") });
+                pids.push((n.to_string(), pid.to_string()));
+                continue;
+            }
+        }
+        match l.split_once(':').map(|(_, r)| r.split(',').collect::<Vec<_>>()) {
+            Some(f) if f.first() == Some(&"58") => {
+                last_pid = Some(f.get(1).and_then(|h| dec_bytes(h)).map(|b| String::from_utf8_lossy(&b).into_owned()).unwrap_or_default())
+            }
+            _ => {
+                rest.push_str("j ");
+                rest.push_str(l);
+                rest.push('\n')
+            }
+        }
+    }
+    sn.jobs = nums.join(",");
+    sn.last = match last_pid.as_deref() {
+        None | Some("") => "-".to_string(),
+        Some(p) => pids.iter().find(|(_, q)| q == p).map(|(n, _)| format!("j{n}")).unwrap_or_else(|| "?".to_string()),
+    };
     sn.rest = rest;
-    sn.tracked = format!(
+    sn.tracked_nojobs = format!(
         "v={} f={} a={} o={} u={} t={} p={} {}",
         sn.vars,
         sn.funs,
@@ -579,6 +679,7 @@ fn finish_snap(tag: &str, secs: &BTreeMap<String, Vec<String>>) -> Snap {
         sn.params,
         sys_canon(&sn.cwd, &sn.sys_umask, &sn.fds, &sn.disp)
     );
+    sn.tracked = format!("{} j={} !={}", sn.tracked_nojobs, sn.jobs, sn.last);
     sn
 }
 
@@ -605,8 +706,8 @@ fn parse_output(text: &str, items: &mut Vec<Item>) {
             }
             continue;
         }
-        if line.len() == 2 && line.starts_with('@') && "BCDA".contains(&line[1..]) {
-            cur = Some((line[1..].to_string(), "v".to_string(), BTreeMap::new()));
+        if let Some(tag) = line.strip_prefix("@S:") {
+            cur = Some((tag.to_string(), "v".to_string(), BTreeMap::new()));
             continue;
         }
         // probe line?
@@ -650,13 +751,25 @@ struct Run {
     stuck: bool,
 }
 
-fn run_script(script: &str, args: Vec<String>) -> Run {
+/// How the virtual system / the shell is prepared before the script starts.
+#[derive(Clone, Debug, Default)]
+struct Setup {
+    /// `/dev/tty` exists (a job-controlled foreground subshell then opens it and calls `tcsetpgrp`)
+    tty: bool,
+    /// the internal dispositions an interactive job-control shell installs (terminators and stoppers)
+    internal: bool,
+    /// a signal the shell inherits as ignored
+    ignored: Option<String>,
+}
+
+fn run_raw(script: &str, args: Vec<String>, su: &Setup) -> (shell::Outcome, Option<String>) {
+    let su = su.clone();
     let mut cfg = shell::Config::new(script);
     cfg.positional_params = args;
     cfg.max_rounds = 20_000;
     let (out, fin) = shell::run_with(
         cfg,
-        |env, state| {
+        move |env, state| {
             STATE.with(|s| *s.borrow_mut() = Some(Rc::clone(state)));
             env.builtins.insert("sysprobe", Builtin::new(Type::Mandatory, sysprobe_main));
             env.builtins.insert("selfsig", Builtin::new(Type::Mandatory, selfsig_main));
@@ -668,6 +781,39 @@ fn run_script(script: &str, args: Vec<String>) -> Run {
             for p in ["/d1/s/keep", "/d2/keep", "/o/in", "/dev/null"] {
                 st.file_system.save(p, Rc::new(RefCell::new(Inode::new(b"x".to_vec())))).unwrap();
             }
+            // a FIFO nobody ever opens for writing: `cat </o/fifo &` is a background job that stays running
+            st.file_system
+                .save(
+                    "/o/fifo",
+                    Rc::new(RefCell::new(Inode {
+                        body: FileBody::Fifo {
+                            content: Default::default(),
+                            readers: 0,
+                            writers: 0,
+                            pending_open_wakers: yash_env::waker::WakerSet::new(),
+                            pending_read_wakers: yash_env::waker::WakerSet::new(),
+                            pending_write_wakers: yash_env::waker::WakerSet::new(),
+                        },
+                        permissions: Mode::from_bits_retain(0o644),
+                    })),
+                )
+                .unwrap();
+            if su.tty {
+                st.file_system.save("/dev/tty", Rc::new(RefCell::new(Inode::new(vec![])))).unwrap();
+            }
+            if let Some(sig) = su.ignored.as_deref().and_then(sig_number) {
+                let pid = env.main_pid;
+                if let Some(p) = st.processes.get_mut(&pid) {
+                    let _ = p.set_disposition(sig, Disposition::Ignore);
+                }
+            }
+            drop(st);
+            if su.internal {
+                use futures_util::FutureExt as _;
+                let sys = Rc::clone(&env.system);
+                env.traps.enable_internal_dispositions_for_terminators(&sys).now_or_never();
+                env.traps.enable_internal_dispositions_for_stoppers(&sys).now_or_never();
+            }
         },
         |env, state| {
             let um = read_umask(env);
@@ -676,6 +822,11 @@ fn run_script(script: &str, args: Vec<String>) -> Run {
         },
     );
     STATE.with(|s| *s.borrow_mut() = None);
+    (out, fin)
+}
+
+fn run_script(script: &str, args: Vec<String>, su: &Setup) -> Run {
+    let (out, fin) = run_raw(script, args, su);
     let mut items = vec![];
     parse_output(&out.stdout_str(), &mut items);
     Run { items, fin: fin.unwrap_or_else(|| "none".into()), status: out.exit_status, stuck: out.stuck }
@@ -695,61 +846,97 @@ fn snap_of<'a>(items: &'a [Item], tag: &str) -> Option<&'a Snap> {
     })
 }
 
-fn full(s: &Snap) -> String {
-    format!("{}\n{}", s.tracked, s.rest)
+
+fn has_opt(s: &Snap, o: &str) -> bool {
+    s.opts.split(',').any(|x| x == o)
 }
 
-/// The property statement evaluated on the real run.
+/// The property statement evaluated on the real run, level by level: the shell of level `j` (0 = the parent,
+/// `j >= 1` = a subshell that starts a further one) must be unchanged by the subshell it starts
+/// (`A<j> == B<j>`), and that subshell must enter with a copy of it (`C<j+1>` vs `B<j>`).
 fn oracle(c: &Case, r: &Run, control: Option<&Run>) -> String {
     let mut fails: Vec<String> = vec![];
-    let b = snap_of(&r.items, "B");
-    let a = snap_of(&r.items, "A");
-    let ch = snap_of(&r.items, "C");
-    let Some(b) = b else {
-        // a failing prologue command under errexit ends the parent before anything can be observed
-        let errexit = c.pro.iter().any(|t| t[0] == "opt+" && t[1] == "errexit");
-        return if errexit { "-".to_string() } else { "FAIL:parent-snapshot-missing".to_string() };
-    };
-    let Some(a) = a else {
-        // With errexit on, a subshell that ends with a non-zero status (or a failing `unalias`) makes the
-        // parent exit before `A`: nothing to compare then (the model still predicts the whole run).
-        let errexit = b.opts.split(',').any(|o| o == "errexit")
-            || c.during.iter().any(|t| t[0] == "opt+" && t[1] == "errexit");
-        return if errexit { "-".to_string() } else { "FAIL:parent-snapshot-missing".to_string() };
-    };
-    // 1. nothing leaks into the parent
-    match control {
-        None => {
-            if full(a) != full(b) {
-                fails.push(format!("parent-changed[{}]", diff_fields(b, a)));
+    let depth = c.kinds.len();
+    let snaps: Vec<&Snap> = r.items.iter().filter_map(|i| if let Item::Snap(s) = i { Some(s) } else { None }).collect();
+    // a snapshot may be legitimately absent only because errexit ended that shell
+    let errexit_possible = |upto: &str| -> bool {
+        let mut on = c.pro.iter().chain(c.during.iter()).chain(c.mid[0].iter()).chain(c.mid[1].iter()).chain(c.child.iter())
+            .any(|t| t[0] == "opt+" && t[1] == "errexit");
+        for s in &snaps {
+            if s.tag == upto {
+                break;
             }
+            on |= has_opt(s, "errexit");
         }
-        Some(cr) => match snap_of(&cr.items, "A") {
-            Some(ca) => {
-                // the text of `mainf` itself differs between the two programs: leave the untracked
-                // function listing out of this comparison
-                let nf = |s: &Snap| -> String {
-                    let r: Vec<&str> = s.rest.lines().filter(|l| !l.starts_with("f ")).collect();
-                    format!("{}\n{}", s.tracked, r.join("\n"))
-                };
-                if nf(a) != nf(ca) {
-                    fails.push(format!("parent-differs-from-control[{}]", diff_fields(ca, a)));
+        on
+    };
+    let mut skipped = false;
+    for j in 0..depth {
+        let (bt, at, ct) = (format!("B{j}"), format!("A{j}"), format!("C{}", j + 1));
+        let Some(b) = snap_of(&r.items, &bt) else {
+            if errexit_possible(&bt) {
+                skipped = true;
+                break;
+            }
+            fails.push(format!("snapshot-missing-{bt}"));
+            break;
+        };
+        // ---- 1. nothing leaks into the shell of level j
+        match snap_of(&r.items, &at) {
+            None => {
+                if errexit_possible(&at) {
+                    skipped = true;
+                } else {
+                    fails.push(format!("snapshot-missing-{at}"));
                 }
             }
-            None => fails.push("control-run-broken".into()),
-        },
-    }
-    // 2. the parent process state read from the virtual system after the run
-    if sys_canon(&a.cwd, &a.sys_umask, &a.fds, &a.disp) != fin_canon(&r.fin) {
-        fails.push("final-process-state".into());
-    }
-    // 3. copy on entry
-    if let Some(ch) = ch {
-        // with `monitor` on, the outermost subshell is job-controlled: an asynchronous list then neither
-        // ignores INT/QUIT nor redirects stdin, and a pipeline runs inside one more (foreground) subshell
-        let jc = b.opts.split(',').any(|o| o == "monitor");
-        let asyncs = c.kinds.iter().enumerate().any(|(i, k)| k == "async" && !(i == 0 && jc));
-        let depth = c.kinds.len() + usize::from(jc && c.kinds[0].starts_with("pipe"));
+            Some(a) => {
+                match (j, control) {
+                    (0, Some(cr)) => match snap_of(&cr.items, "A0") {
+                        Some(ca) => {
+                            // the text of `mainf` itself differs between the two programs: leave the untracked
+                            // function listing out of this comparison
+                            let nf = |s: &Snap| -> String {
+                                let r: Vec<&str> = s.rest.lines().filter(|l| !l.starts_with("f ")).collect();
+                                format!("{}\n{}", s.tracked_nojobs, r.join("\n"))
+                            };
+                            if nf(a) != nf(ca) {
+                                fails.push(format!("parent-differs-from-control[{}]", diff_fields(ca, a).join(",")));
+                            }
+                        }
+                        None => fails.push("control-run-broken".into()),
+                    },
+                    _ => {
+                        let mut d = diff_fields(b, a);
+                        if j == 0 && c.quiet {
+                            // `B0` was taken without the `trap` listing
+                            d.retain(|x| *x != "traps");
+                        }
+                        if !d.is_empty() {
+                            fails.push(format!("level{j}-changed[{}]", d.join(",")));
+                        }
+                        // the job table: a synchronous subshell leaves it alone; `&` + `wait $!` removes its own job
+                        if a.jobs != b.jobs {
+                            fails.push(format!("level{j}-jobs"));
+                        }
+                    }
+                }
+                // ---- 2. the parent process state read from the virtual system after the run
+                if j == 0 && sys_canon(&a.cwd, &a.sys_umask, &a.fds, &a.disp) != fin_canon(&r.fin) {
+                    fails.push("final-process-state".into());
+                }
+            }
+        }
+        // ---- 3. copy on entry
+        let Some(ch) = snap_of(&r.items, &ct) else {
+            fails.push(format!("snapshot-missing-{ct}"));
+            break;
+        };
+        let kind = c.kinds[j].as_str();
+        // with `monitor` on, a subshell started by the top-level shell is job-controlled: an asynchronous list
+        // then neither ignores INT/QUIT nor redirects stdin, and a pipeline runs inside one more subshell
+        let jc = j == 0 && has_opt(b, "monitor");
+        let forced_kind = kind == "async" && !jc;
         for (what, x, y) in [
             ("vars", &b.vars, &ch.vars),
             ("funs", &b.funs, &ch.funs),
@@ -759,28 +946,55 @@ fn oracle(c: &Case, r: &Run, control: Option<&Run>) -> String {
             ("umask", &b.umask, &ch.umask),
             ("sys-umask", &b.sys_umask, &ch.sys_umask),
             ("cwd", &b.cwd, &ch.cwd),
+            ("jobs", &b.jobs, &ch.jobs),
+            ("last-async", &b.last, &ch.last),
             ("rest", &b.rest, &ch.rest),
         ] {
             if x != y {
-                fails.push(format!("entry-{what}"));
+                fails.push(format!("entry{}-{what}", j + 1));
             }
         }
-        // dispositions: command actions reset, ignored stays ignored
+        // user-visible trap actions of the starting shell: from its `trap` listing, or (B0 without listing)
+        // from the prologue's trap commands
+        let mut shown: BTreeMap<String, String> = b.traps.clone();
+        if j == 0 && c.quiet {
+            for t in c.pro.iter().filter(|t| t[0] == "trap") {
+                if t[2] == "d" {
+                    shown.remove(&t[1]);
+                } else {
+                    shown.insert(t[1].clone(), t[2].clone());
+                }
+            }
+        }
+        // dispositions: command actions and internal dispositions reset, ignored stays ignored
         for (s, d) in &b.disp {
-            let forced = asyncs && (s == "INT" || s == "QUIT");
-            let want = if forced || d == "I" { "I" } else { "D" };
+            let forced = forced_kind && (s == "INT" || s == "QUIT");
+            let user_ignored = shown.get(s).map(|x| x.as_str()) == Some("i");
+            let inherited = c.ignored.as_deref() == Some(s.as_str());
+            // an interactive job-control shell's non-job-controlled subshell keeps ignoring the stop signals
+            let kept_stopper = s.starts_with("T") && s != "TERM" && d == "I" && !jc;
+            // inside a subshell no internal disposition is left (the first entry cleared them), so an ignoring
+            // disposition there is an ignore action even when `trap` still shows the remembered parent command
+            let deep_ignore = j >= 1 && d == "I";
+            let want = if forced || user_ignored || inherited || kept_stopper || deep_ignore { "I" } else { "D" };
             if ch.disp.get(s).map(|x| x.as_str()) != Some(want) {
-                fails.push(format!("entry-disposition-{s}"));
+                fails.push(format!("entry{}-disposition-{s}", j + 1));
             }
         }
-        // `trap` output: the parent's traps at depth 1 (parent_state), only the ignored ones deeper
+        // `trap` output: the starter's own traps after a single entry (parent_state); only ignored ones otherwise
+        let single = j == 0 && !c.quiet && !(jc && kind.starts_with("pipe"));
         for (name, _) in SIGS.iter() {
-            let pb = b.traps.get(*name);
+            let pb = shown.get(*name);
             let pc = ch.traps.get(*name);
-            let forced = asyncs && (*name == "INT" || *name == "QUIT");
+            let forced = (forced_kind && (*name == "INT" || *name == "QUIT"))
+                || (name.starts_with('T') && *name != "TERM" && ch.disp.get(*name).map(|x| x.as_str()) == Some("I"))
+                || (c.ignored.as_deref() == Some(*name));
             let ok = match pb.map(|s| s.as_str()) {
-                Some("i") => pc == pb,
-                Some(_) if depth == 1 => pc == pb,
+                Some("i") => pc.map(|s| s.as_str()) == Some("i"),
+                Some(_) if single => pc == pb,
+                // deeper levels / B0 without listing: a command shown at level j may be the starter's own (then
+                // it is remembered) or its parent's (then it is dropped) — left to the model comparison
+                Some(_) if j > 0 || c.quiet => true,
                 Some(_) | None => {
                     if forced {
                         pc.map(|s| s.as_str()) == Some("i")
@@ -790,49 +1004,49 @@ fn oracle(c: &Case, r: &Run, control: Option<&Run>) -> String {
                 }
             };
             if !ok {
-                fails.push(format!("entry-trap-output-{name}"));
+                fails.push(format!("entry{}-trap-output-{name}", j + 1));
             }
         }
         // fd table: same except the plumbing the kind itself installs
-        let mut exempt: Vec<u32> = vec![];
-        for (i, k) in c.kinds.iter().enumerate() {
-            match k.as_str() {
-                "async" if i == 0 && jc => {}
-                "subst" | "pipeF" => exempt.push(1),
-                "pipeM" => {
-                    exempt.push(0);
-                    exempt.push(1)
-                }
-                "pipeL" | "async" => exempt.push(0),
-                _ => {}
-            }
-        }
+        let exempt: Vec<u32> = match kind {
+            "async" if jc => vec![],
+            "subst" | "pipeF" => vec![1],
+            "pipeM" => vec![0, 1],
+            "pipeL" | "async" => vec![0],
+            _ => vec![],
+        };
         let strip = |m: &BTreeMap<u32, String>| -> BTreeMap<u32, String> {
             m.iter().filter(|(k, _)| !exempt.contains(k)).map(|(k, v)| (*k, v.clone())).collect()
         };
         if strip(&b.fds) != strip(&ch.fds) {
-            fails.push("entry-fds".into());
+            fails.push(format!("entry{}-fds", j + 1));
         }
-    } else {
-        fails.push("child-entry-snapshot-missing".into());
     }
-    // 4. a trap command set by the parent (ids 1-3) never runs between C and the end of the child
-    let mut inside = false;
-    for i in &r.items {
-        match i {
-            Item::Snap(s) if s.tag == "C" => inside = true,
-            Item::Ev(e) if e.starts_with("st:") || e.starts_with("sub:") => inside = false,
-            Item::Ev(e) if inside && (e == "T1" || e == "T2" || e == "T3") => fails.push(format!("parent-trap-ran-in-child-{e}")),
-            _ => {}
+    // ---- 4. a trap command set by the top-level shell (ids 1-3) never runs inside a subshell
+    let first_c = r.items.iter().position(|i| matches!(i, Item::Snap(s) if s.tag == "C1"));
+    let last_snap = r.items.iter().rposition(|i| matches!(i, Item::Snap(_)));
+    if let (Some(lo), Some(hi)) = (first_c, last_snap) {
+        for i in &r.items[lo..hi] {
+            if let Item::Ev(e) = i {
+                if e == "T1" || e == "T2" || e == "T3" {
+                    fails.push(format!("parent-trap-ran-in-child-{e}"));
+                }
+            }
         }
     }
     if r.stuck {
         fails.push("stuck".into());
     }
-    if fails.is_empty() { "ok".to_string() } else { format!("FAIL:{}", fails.join("+")) }
+    if !fails.is_empty() {
+        format!("FAIL:{}", fails.join("+"))
+    } else if skipped {
+        "-".to_string()
+    } else {
+        "ok".to_string()
+    }
 }
 
-fn diff_fields(x: &Snap, y: &Snap) -> String {
+fn diff_fields(x: &Snap, y: &Snap) -> Vec<&'static str> {
     let mut d = vec![];
     for (n, p, q) in [
         ("vars", &x.vars, &y.vars),
@@ -858,18 +1072,18 @@ fn diff_fields(x: &Snap, y: &Snap) -> String {
     if x.disp != y.disp {
         d.push("dispositions");
     }
-    d.join(",")
+    d
 }
 
 fn observe(c: &Case, r: &Run) -> String {
-    let b_rest = snap_of(&r.items, "B").map(|s| s.rest.clone());
+    let b_rest = snap_of(&r.items, "B0").map(|s| s.rest.clone());
     let mut parts = vec![];
     let mut rest = String::new();
     for i in &r.items {
         match i {
             Item::Snap(s) => {
                 parts.push(format!("{}{{{}}}", s.tag, s.tracked));
-                if s.tag != "B" {
+                if s.tag != "B0" {
                     rest.push(if Some(&s.rest) == b_rest.as_ref() { '=' } else { '#' });
                 }
             }
@@ -892,8 +1106,9 @@ fn run_case(text: &str) -> (String, String) {
         return ("bad-case".to_string(), "-".to_string());
     };
     let args: Vec<String> = vec![];
-    let r = run_script(&render(&c, false), args.clone());
-    let control = if c.during.is_empty() { None } else { Some(run_script(&render(&c, true), args)) };
+    let su = c.setup();
+    let r = run_script(&render(&c, false), args.clone(), &su);
+    let control = if c.during.is_empty() { None } else { Some(run_script(&render(&c, true), args, &su)) };
     (observe(&c, &r), oracle(&c, &r, control.as_ref()))
 }
 
@@ -997,7 +1212,7 @@ fn gen_op(rng: &mut Rng, abs: &mut Abs, fam: usize, phase: char) -> Option<Strin
         10 => format!("cd {}", pick(rng, &DIRS)),
         11 => format!("umask {}", pick(rng, &MASKS)),
         12 => {
-            let s = SIGS[rng.below(SIGS.len())].0;
+            let s = OP_SIGS[rng.below(OP_SIGS.len())];
             let a = match rng.below(4) {
                 0 => "d".to_string(),
                 1 => "i".to_string(),
@@ -1043,6 +1258,12 @@ fn gen_op(rng: &mut Rng, abs: &mut Abs, fam: usize, phase: char) -> Option<Strin
                 }
             }
         }
+        15 => {
+            if phase == 'W' {
+                return None;
+            }
+            "bg".to_string()
+        }
         14 => {
             if phase == 'W' {
                 return None;
@@ -1067,7 +1288,7 @@ fn abs_enter(abs: &mut Abs, kind: &str) {
 }
 
 fn gen_raise(rng: &mut Rng, abs: &Abs, phase: char) -> Option<String> {
-    let names: Vec<&str> = SIGS.iter().filter(|s| s.1.is_some()).map(|s| s.0).collect();
+    let names: Vec<&str> = OP_SIGS[1..].to_vec();
     let s = names[rng.below(names.len())];
     let a = abs.traps.get(s).copied().unwrap_or('d');
     // the parent must survive; a child may be killed
@@ -1077,10 +1298,29 @@ fn gen_raise(rng: &mut Rng, abs: &Abs, phase: char) -> Option<String> {
     Some(format!("raise {s}"))
 }
 
+/// optional set-up flags of a case
+fn gen_flags(rng: &mut Rng, parts: &mut Vec<String>) {
+    if rng.chance(1, 4) {
+        parts.push("T:1".into());
+    }
+    if rng.chance(1, 6) {
+        parts.push("I:1".into());
+    }
+    if rng.chance(1, 8) {
+        parts.push(format!("G:{}", OP_SIGS[1 + rng.below(5)]));
+    }
+    if rng.chance(1, 5) {
+        parts.push("Q:1".into());
+    }
+}
+
 fn gen_case(rng: &mut Rng, pro_fams: &[usize], kinds: &[&str], child_fams: &[usize], during_fams: &[usize], in_fn: bool, raises: bool) -> String {
     let mut parts: Vec<String> = vec![];
     if in_fn {
         parts.push("F:1".into());
+    }
+    if raises {
+        gen_flags(rng, &mut parts);
     }
     let mut abs = Abs::default();
     for &f in pro_fams {
@@ -1096,9 +1336,20 @@ fn gen_case(rng: &mut Rng, pro_fams: &[usize], kinds: &[&str], child_fams: &[usi
     for k in kinds {
         parts.push(format!("K:{k}"));
     }
+    // walk down the levels: each subshell starts from a copy of its starter's abstract state
     let mut cabs = abs.clone();
-    for k in kinds {
+    for (j, k) in kinds.iter().enumerate() {
         abs_enter(&mut cabs, k);
+        if j + 1 < kinds.len() {
+            // mutators of an intermediate level, before it starts the next subshell
+            let n = if raises { rng.below(3) } else { rng.below(2) };
+            for _ in 0..n {
+                let fam = rng.below(NFAM);
+                if let Some(op) = gen_op(rng, &mut cabs, fam, 'W') {
+                    parts.push(format!("{}:{op}", if j == 0 { "M" } else { "N" }));
+                }
+            }
+        }
     }
     for &f in child_fams {
         if let Some(op) = gen_op(rng, &mut cabs, f, 'C') {
@@ -1106,7 +1357,9 @@ fn gen_case(rng: &mut Rng, pro_fams: &[usize], kinds: &[&str], child_fams: &[usi
         }
     }
     if raises && rng.chance(1, 2) {
-        if let Some(op) = gen_raise(rng, &cabs, 'C') {
+        if rng.chance(1, 4) {
+            parts.push(format!("C:exit {}", pick(rng, &["0", "3", "7"])));
+        } else if let Some(op) = gen_raise(rng, &cabs, 'C') {
             parts.push(format!("C:{op}"));
         }
     }
@@ -1120,7 +1373,7 @@ fn gen_case(rng: &mut Rng, pro_fams: &[usize], kinds: &[&str], child_fams: &[usi
     parts.join("; ")
 }
 
-const NFAM: usize = 15;
+const NFAM: usize = 16;
 
 /// A mutator family for the prologue (uniform over all families).
 fn pro_fam(rng: &mut Rng) -> usize {
@@ -1134,6 +1387,19 @@ fn rng_fam(k: usize) -> usize {
 fn main() {
     quiet_panics();
     let o = Opts::from_args();
+    if o.extra.first().map(|s| s.as_str()) == Some("--script") {
+        // debugging aid: `c08 --script 'text' [tty] [internal] [ign=SIG]` runs a raw script in this harness's set-up
+        let su = Setup {
+            tty: o.extra.iter().any(|x| x == "tty"),
+            internal: o.extra.iter().any(|x| x == "internal"),
+            ignored: o.extra.iter().find_map(|x| x.strip_prefix("ign=").map(|s| s.to_string())),
+        };
+        let (out, fin) = run_raw(&o.extra[1], vec![], &su);
+        print!("{}", out.stdout_str());
+        eprint!("{}", out.stderr_str());
+        eprintln!("[exit {} stuck {}] fin {:?}", out.exit_status, out.stuck, fin);
+        return;
+    }
     if o.extra.first().map(|s| s.as_str()) == Some("--show") {
         let (fixed, _) = o.fixed_cases();
         for c in fixed {
@@ -1165,13 +1431,9 @@ fn main() {
     }
     let mut cases: Vec<String> = vec![];
     let mut rng = Rng::new(o.seed ^ 0xC08);
-    // (1) the sweep: every mutator family x every kind x depth 1-2, with a small random prologue
-    let depth2: Vec<(&str, &str)> = if o.thorough() {
-        KINDS.iter().flat_map(|a| KINDS.iter().map(move |b| (*a, *b))).collect()
-    } else {
-        // every kind once as outer and once as inner
-        (0..KINDS.len()).map(|i| (KINDS[i], KINDS[(i * 5 + 1) % KINDS.len()])).collect()
-    };
+    // (1) the sweep: every mutator family x every kind x nesting depth 1-3 (every ordered pair of kinds
+    // occurs as "inner directly inside outer"), with a small random prologue
+    let nk = KINDS.len();
     let reps = if o.thorough() { 12 } else { 2 };
     for rep in 0..reps {
         for fam in 0..NFAM {
@@ -1180,9 +1442,24 @@ fn main() {
                 let during: Vec<usize> = if rng.chance(1, 2) { vec![rng.below(NFAM)] } else { vec![] };
                 cases.push(gen_case(&mut rng, &pro, &[k], &[fam], &during, rep % 2 == 1, false));
             }
-            for (k1, k2) in depth2.iter() {
+            let mut nests: Vec<Vec<&str>> = vec![];
+            if o.thorough() {
+                for a in KINDS.iter() {
+                    for b in KINDS.iter() {
+                        nests.push(vec![a, b]);
+                        nests.push(vec![a, b, KINDS[rng.below(nk)]]);
+                    }
+                }
+            } else {
+                for (i, k) in KINDS.iter().enumerate() {
+                    nests.push(vec![k, KINDS[(i + fam + rep) % nk]]);
+                    nests.push(vec![KINDS[(i + 2 * fam + rep + 1) % nk], k]);
+                    nests.push(vec![k, KINDS[(i + fam) % nk], KINDS[(i + rep + 2 * fam + 3) % nk]]);
+                }
+            }
+            for kinds in nests {
                 let pro: Vec<usize> = (0..(1 + rng.below(4))).map(|_| pro_fam(&mut rng)).collect();
-                cases.push(gen_case(&mut rng, &pro, &[k1, k2], &[fam], &[], rep % 2 == 1, false));
+                cases.push(gen_case(&mut rng, &pro, &kinds, &[fam], &[], rep % 2 == 1, false));
             }
         }
     }
@@ -1203,7 +1480,7 @@ fn main() {
                         parts.push(format!("P:opt{} {}", if on { "-" } else { "+" }, opt));
                     }
                     if rng.chance(1, 2) {
-                        parts.push(format!("P:trap {} c1", SIGS[1 + rng.below(5)].0));
+                        parts.push(format!("P:trap {} c1", OP_SIGS[1 + rng.below(5)]));
                     }
                     parts.push(format!("P:opt{} {}", if on { "+" } else { "-" }, opt));
                     for k in &kinds {
@@ -1229,7 +1506,12 @@ fn main() {
         let during: Vec<usize> = (0..nd).map(|_| rng.below(NFAM)).collect();
         let k1 = pick(&mut rng, &KINDS);
         let k2 = pick(&mut rng, &KINDS);
-        let kinds: Vec<&str> = if rng.chance(1, 3) { vec![k1, k2] } else { vec![k1] };
+        let k3 = pick(&mut rng, &KINDS);
+        let kinds: Vec<&str> = match rng.below(6) {
+            0 => vec![k1, k2, k3],
+            1 | 2 => vec![k1, k2],
+            _ => vec![k1],
+        };
         let in_fn = rng.chance(1, 4);
         cases.push(gen_case(&mut rng, &pro, &kinds, &child, &during, in_fn, true));
     }
